@@ -27,7 +27,7 @@ EXPLANATION = (
     "array, order-preserving map, worker initialiser)."
 )
 ASSUMPTIONS = [
-    "find_shortest_path is sound, optimal and complete (C02)",
+    "A* with the extracted slots is sound, optimal and complete (textbook lemma; C03.P7 re-judges the slots of C02)",
     "multiprocessing.Pool.imap returns results in submission order; each worker runs the initializer before any task",
 ]
 TRUSTED = ["ast"]
@@ -323,10 +323,19 @@ def rule_P6(ctx: Ctx) -> None:
               "the worker initialiser binds the module global the helper reads to the configuration it was given")
 
 
+def rule_P7(ctx: Ctx) -> None:
+    "the 'shortest route' sentence of C03 rests on the solver: re-judge the A* slots (C02.S1-S8) under this property"
+    from sa.rules import c02
+
+    for r in c02.RULES:
+        r.run(ctx)
+
+
 RULES = [
     Rule("C03.P1", rule_P1, floor=2, doc="pipeline dataflow"),
     Rule("C03.P2", rule_P2, floor=2, doc="every path ends in the solver on component endpoints"),
     Rule("C03.P3", rule_P3, floor=9, doc="endpoint options honoured"),
     Rule("C03.P5", rule_P5, floor=2, doc="ends from the solution"),
     Rule("C03.P6", rule_P6, floor=5, doc="count and sibling branches"),
+    Rule("C03.P7", rule_P7, floor=16, doc="solver slots (the stored solution is a shortest route): C02.S1-S8 re-judged"),
 ]
